@@ -55,7 +55,7 @@ TEXT = {
             'the answer menu is built from the fields LanguageTool sends', 'exhaustive answer-fault enumeration (deviation bound 1, pairs in thorough); CLI conformance replay'),
     'C16': ('model_checking', 'Plain-input sources x all sets of up to 2 matches (3 on short sources) over all in-range offsets and lengths x context sizes x hostile strings, and runs with two files; oracle parses the report with html.parser and compares rows, highlights and titles with the source.',
             'html.parser is the trusted reader of the markup', TECH + '; HTML structure model'),
-    'C17': ('model_checking', 'Every call history up to depth 2 (quick; 3 thorough, plus depth 3 behind the writer calls) over 36 (document, options) calls, and every '
+    'C17': ('model_checking', 'Every call history up to depth 2 (quick; 3 thorough, plus depth 3 behind the writer calls) over 39 (document, options) calls, and every '
             'request history up to depth 3 (4) over 11 requests to one initialised server, is executed in a forked child of a pristine worker; the last '
             'result and its immediate repetition are compared with the same call made alone in a fresh process. Each edge records a canonical fingerprint '
             'of all yalafi module state before and after the call; evidence reports distinct states, edges and whether the state graph is closed. '
